@@ -2,7 +2,7 @@ SPECIFICATION Spec
 CONSTANTS
   Leaves <- LvAll
   UnOps = {"+", "-", "~", "!"}
-  Casts = {"int", "bool", "char"}
+  Casts = {"int", "bool", "char", "short"}
   BinOps = {"*", "/", "%", "+", "-", "<<", ">>", "<", ">", "<=", ">=", "==", "!=", "&", "^", "|", "&&", "||"}
   UseCond = TRUE
   MaxTok = 3
